@@ -56,6 +56,9 @@ def cands(st):
             for j, ch in enumerate(n._children):
                 out.append((f'I3a/{i}/{j}', z3.Implies(nonempty(st, ch), cc == j + 1)))          # occupied branch is the chosen one
             out.append((f'I3b/{i}', z3.Implies(cc == 0, z3.Not(nonempty(st, n)))))               # uncommitted => empty below
+            for j, ch in enumerate(n._children):
+                if st.kind[ch._dv_idx] == 'E':
+                    out.append((f'I3c/{i}/{j}', z3.Implies(cc == j + 1, st.cnt[ch._dv_idx] > 0)))  # committed to a leaf alternative => that leaf is occupied
         rf = M.flag_term(st, i, '_requirements_fulfilled')
         if rf is not None:
             if k in ('S', 'G'):
@@ -68,6 +71,9 @@ def cands(st):
                 if cc_ is not None:
                     out.append((f'I7a/{i}', z3.Implies(rf == 2, cc_ == 0)))                     # flagged missing => uncommitted
                     out.append((f'I7b/{i}', z3.Implies(cc_ != 0, rf == 1)))                    # committed => fulfilled
+                    if n.min_occurrences != 0:
+                        out.append((f'I7c/{i}', z3.Implies(rf == 1, cc_ != 0)))                # a required choice counts as fulfilled only when committed
+                        out.append((f'I7d/{i}', z3.Implies(rf == 1, z3.Or(cc_ != 0, nonempty(st, n)))))
         if k == 'S':
             fv = M.flag_term(st, i, '_force_validate')
             out.append((f'I4a/{i}', z3.Implies(nonempty(st, n), fv == 1)))                        # occupied below => force-validated
